@@ -37,6 +37,7 @@ ASSUMPTIONS = [
 OUTSIDE = ["HDF5 bit-fidelity (C14)", "compiled kernels", "time-dependent drives across a resume"]
 TV_SAMPLES = {"quick": 1, "thorough": 1}
 MAX_PATHS = {"quick": 4000, "thorough": 40000}
+PHASE_AXIOMS = True  # equal link phases give equal link variables (the resumed-operators case compares unit pairs)
 
 
 def patch_spec(case):
@@ -84,6 +85,7 @@ def cases(tier, seed):
         out.append(Case(f"resume:seed:screening={int(scr)}", kind="seed", screening=scr, seed=seed))
     for n1 in range(1, N):
         out.append(Case(f"resume:split:{n1}+{N - n1}", kind="split", N=N, n1=n1, seed=seed))
+    out.append(Case("resume:operators:screening", kind="resume_ops", seed=seed))
     return out
 
 
@@ -224,6 +226,79 @@ def body_seed(H, case, fs):
             fa = a.ravel() if hasattr(a, "ravel") else a
             fb = b.ravel() if hasattr(b, "ravel") else b
             H.prove_conj_eq(f"resumed run starts from the seed's {nm}", list(zip(K.elems(fa), K.elems(fb))))
+
+
+def body_resume_ops(H, case, fs):
+    """what a step computes also depends on solver state that is not part of a seed: the covariant
+    operators.  A solver resumed from the state (psi, mu, currents, A_induced) that an uninterrupted
+    solver reached must use, in its first step, the operators the uninterrupted solver uses in its next
+    step (real __init__ and update; the Euler step, Poisson solve and Polyak iteration are scripted)."""
+    from .C10 import compare
+
+    dev = S.symbolic_device(H, "bar2", case.seed)
+    mesh = dev.mesh
+    ns, ne = len(mesh.sites), len(mesh.edge_mesh.edges)
+    opts = S.make_options(dt_init=0.01, dt_max=0.01, adaptive=False, include_screening=True, max_iterations_per_step=2, screening_tolerance=1e-3)
+    import tdgl
+
+    A2 = H.reals2("Aapp_", ne, 2, lo=-2.0, hi=2.0)
+    z1 = S.zeros2(H, ne, 1)
+    if H.mode == "sym":
+        from symx.arr import concatenate
+
+        A3 = concatenate([A2, z1], axis=1)
+    else:
+        A3 = np.concatenate([A2, z1], axis=1)
+    A0 = tdgl.Parameter(lambda x, y, z: A3)  # a static applied vector potential with arbitrary values on the edges
+    psi0, mu0 = H.cplxs("p", ns), H.reals("m", ns)
+
+    class Snapshot:
+        def __init__(self, mo):
+            self.psi_gradient, self.psi_laplacian = mo.psi_gradient.copy(), mo.psi_laplacian.copy()
+
+    def run(tag, induced_in, steps, errs):
+        """`steps` updates of a fresh solver; returns the operators at the first use of every update and
+        the final induced potential"""
+        solver = S.make_solver(H, dev, opts, A=A0, currents=None)
+        first_use, state = {}, dict(k=0, it=0, induced=induced_in)
+
+        def fake_euler(step, psi, abs_sq_psi, mu, epsilon, dt):
+            first_use.setdefault(state["k"], Snapshot(solver.operators))
+            return psi, abs_sq_psi, dt
+
+        def fake_observables(psi, dA_dt):
+            z = H.array([0.0] * ne) if H.mode == "sym" else np.zeros(ne)
+            return mu0, z, z
+
+        def fake_induced(current_density, A_induced_vals, velocity):
+            state["it"] += 1
+            newA = H.reals2(f"Aind_{state['k']}_{state['it']}_", ne, 2, lo=-1.0, hi=1.0) if tag == "uninterrupted" else None
+            if newA is None:  # the resumed solver's iterates are not compared
+                newA = H.reals2(f"Aind_resumed_{state['it']}_", ne, 2, lo=-1.0, hi=1.0)
+            A_induced_vals.append(newA)
+            state["induced"] = newA
+            return newA, errs[min(state["it"] - 1, len(errs) - 1)]
+
+        solver.adaptive_euler_step = fake_euler
+        solver.solve_for_observables = fake_observables
+        solver.get_induced_vector_potential = fake_induced
+        rs = S.running_state(H, solver)
+        for k in range(1, steps + 1):
+            state["k"], state["it"] = k, 0
+            res = solver.update({"step": k, "time": 0.01 * k, "dt": 0.01}, rs, 0.01, psi=psi0, mu=mu0, supercurrent=None, normal_current=None,
+                                induced_vector_potential=state["induced"], applied_vector_potential=None)
+            state["induced"] = res.A_induced
+        return first_use, state["induced"]
+
+    zero = S.zeros2(H, ne, 2)
+    errs = [1.0, 0.0]  # two Polyak iterations per step, then converged
+    use_full, _ = run("uninterrupted", zero, 2, errs)
+    # the state after the first step of the uninterrupted run
+    use_1, induced_1 = run("uninterrupted", zero, 1, errs)
+    use_res, _ = run("resumed", induced_1, 1, errs)
+    H.prove("both runs reach the Euler step", 2 in use_full and 1 in use_res)
+    if 2 in use_full and 1 in use_res:
+        compare(H, "first use in the resumed step vs. the uninterrupted run's next step", use_res[1], use_full[2], entrywise=False)
 
 
 def body_split(H, case, fs):
